@@ -89,3 +89,18 @@ check("C25", "internal/zzverif/c25",
       level_text="Every block of generated histories is compared with an independent model of 7.5-7.8; held = no divergence on what was explored.",
       note="Trusts the model in harness/internal/zzverif/c25 and refmerkle; the header hash uses the repository's own header encoder (covered by C11).",
       shards=(8, 16), floors={"any": {"blocks": 5000, "blocks_with_several_packages": 500, "blocks_dropping_oldest": 1000}}, assumptions=[STANDIN_VRF])
+
+PVM_NOTE = ("Trusts refpvm (harness/internal/zzverif/refpvm: ~800 lines written from GP 0.7.2 App. A, no shared code). Not judged (DESIGN §3): sbrk results (U2), "
+            "accesses wrapping past 2^32 (U14), branches landing at/after the end of the code (U15), programs with more than 24 operand bytes after an opcode (U17), "
+            "start pcs that are not instruction starts (U1), registers after a panic raised by opcodes 80/180 (U10).")
+
+check("C01", "PVM",
+      rule="case = (program blob, start pc, gas, 13 registers, page map) executed by SingleStepInvokeDecodedBlocks and by refpvm segment by segment across host calls (identical host effect applied to both); compared: exit kind, gas, registers, every page, resume pc, host-call id, fault address window. "
+           "strata: compiler-like programs (exact operand lengths, all 138 modelled opcodes, branches to block starts, jump tables, halts; ANY divergence is a violation), operand grid (every opcode byte 0..255 x 12 first-operand bytes x 12 second-operand bytes x skip 0..24 x {start, middle, code ends 0..9 bytes after the opcode}; exhaustive in the thorough tier, 1/18 subsample in quick), "
+           "hostile programs (random bytes, bitmasks, jump tables with z in {0,1,2,3,4,8}), and ecalli dispatch through Host.HostCall with recording omega tables (ids 0..2^64-1, holes, table sizes 27..256). distinct_nontrivial = distinct (blob, gas) / grid cells with a valid opcode / (id, table, gas) triples",
+      technique="reference-model monitor (independent GP App. A interpreter, lock-step differential across host-call boundaries) + dispatch-log monitor at the omega table",
+      level_text="Every generated execution of the real block engine is compared state-for-state with an independent Gray Paper interpreter; the operand grid is enumerated completely in the thorough tier. Held = no divergence on what was explored.",
+      note=PVM_NOTE, shards=(8, 16),
+      floors={"any": {"compiler_distinct_opcodes": 130, "compiler_exit_halt": 100, "compiler_exit_host-call": 100, "compiler_exit_out-of-gas": 100, "compiler_exit_page-fault": 100, "compiler_exit_panic": 100,
+                      "dispatch_known": 1000, "dispatch_unknown": 1000, "dispatch_id_ge_256": 1000, "grid_model_steps": 100000}},
+      exhaustive="thorough tier: the complete operand grid 256 x 12 x 12 x 25 x 3")
